@@ -37,7 +37,8 @@ def _case(draw):
     flat = 1 if what == "ks" else 4
     c = draw(zoo.transform_case({"img": False, "flat_max": flat, "doms": ["R"], "fn_box": False, "multiscale": what != "ks",
                                  "regimes": ["fresh", "small", "moderate"] if what != "rowid" else ["fresh", "small"],
-                                 "umnn": False, "exclude": NO + (["batchnorm", "compositecdf", "inv_R", "logtanh"] if what == "rowid" else [])}))
+                                 "umnn": False, "exclude": NO + (["batchnorm", "compositecdf", "inv_R", "logtanh"] if what == "rowid" else []) +
+                                 (["logtanh", "inv_R"] if what == "mog_rows" else [])}))      # (LogTanh^-1 grows like exp: the way back to the noise loses digits)
     c["what"] = what
     c["kind"] = draw(st.sampled_from(["flow", "flow", "flow", "maf", "realnvp"])) if what in ("pairing", "noise") else "flow"
     c["base"] = draw(st.sampled_from(["standard", "standard", "conditional", "mademog"])) if what == "pairing" else (
